@@ -832,11 +832,29 @@ func (s *Sel) checkRenameUnregistersFirst(c *Ctx, rule string, f *ssa.Function) 
 		return ap.LastField() == s.FReplicaName && ap.HasField(s.FProcConf)
 	}})
 	var renames []ssa.Instruction
-	AllInstrs(f, func(in ssa.Instruction) {
-		if call, ok := in.(*ssa.Call); ok && setName.MayAt(call) && !del.MayAt(call) {
-			renames = append(renames, in)
+	// the three steps are in the rename function itself or in a helper it calls
+	scope := f
+	for depth := 0; depth < 3 && len(renames) == 0; depth++ {
+		var next *ssa.Function
+		AllInstrs(scope, func(in ssa.Instruction) {
+			call, ok := in.(*ssa.Call)
+			if !ok || !setName.MayAt(call) {
+				return
+			}
+			if !del.MayAt(call) {
+				renames = append(renames, in)
+			} else if sc := call.Call.StaticCallee(); sc != nil && len(sc.Blocks) > 0 {
+				next = sc
+			}
+		})
+		if len(renames) == 0 {
+			if next == nil {
+				break
+			}
+			scope = next
 		}
-	})
+	}
+	f = scope
 	if len(renames) == 0 {
 		c.Bad(rule, "rename:instance-name", FirstPos(p, f), "the rename function does not change the name of the registered instance")
 		return
